@@ -220,7 +220,9 @@ def run(tier, seed):
            # code spans whose content is blank(s) only, or a blank on either side (the writers trim the first and last inner token)
            ("x:codespans", b"a ` ` b `\\ ` c ` x ` d `     ` e `` ` `` f\n\n` `\n"),
            # links whose text starts with a two-character opener: the writers widen a token to print it
-           ("x:openerlink", b"[^foo](url)\n\ntext [^foo](url) and [#c](u) [%v](u) [>a](u) [?g](u) more\n\n[^r][l] ![#i](p.png)\n\n[l]: /d\n")]
+           ("x:openerlink", b"[^foo](url)\n\ntext [^foo](url) and [#c](u) [%v](u) [>a](u) [?g](u) more\n\n[^r][l] ![#i](p.png)\n\n[l]: /d\n"),
+           # ... the same openers on links that point into the document itself (the writers treat internal addresses on a path of their own)
+           ("x:openerinternal", b"Intro text.\n\n# Sec #\n\nSee [^above](#sec) for details and [#c](#sec) [?g](#sec) [>a](#sec).\n\n[^r][i] end\n\n[i]: #sec\n")]
     gen = [("seq", c02.text_of(table, s)) for s in seqs] + [("seq3", c02.text_of(table, s)) for s in (rnd.sample(seqs3, 1500 if tier == "quick" else 12000))] + [("sim", c02.text_of(table, s)) for s in sim]
     cases_ = []
     for name, b in dl:
@@ -252,6 +254,11 @@ def run(tier, seed):
                 for f in (fmts[0], fmts[0], fmts[-1]):
                     s.append(line("e_export", 0, docs.FMT[f]))
                 s.append(line("e_tree", 0, "reexport:" + fmts[-1]))
+            if name.startswith("x:") and x in (0, E["SMART"] | E["CRITIC"]):
+                # ... three times in a row by every writer family
+                for f in ("latex", "beamer", "memoir", "fodt", "html", "opml"):
+                    for _ in range(3): s.append(line("e_export", 0, docs.FMT[f]))
+                    s.append(line("e_tree", 0, "reexport:" + f))
             if name.startswith("pool:"):
                 # packaged formats go through mmd_engine_convert_to_data on the same engine
                 for f in ("bundlezip", "epub", "odt"):
